@@ -224,7 +224,7 @@ type MemLog struct {
 // Call records an invocation of f and returns the digest of the argument tuple (results of f are
 // computed from it). Arguments must be passed with their static types (typed nils).
 func (l *MemLog) Call(args ...interface{}) uint64 {
-	h := uint64(7)
+	h := uint64(12) // divisible by 3 and by 4: with no arguments a single slice or pointer result is nil (MemNil)
 	for _, a := range args {
 		h = 31*h + memDigest(reflect.ValueOf(a), l.Raw)
 	}
